@@ -89,7 +89,8 @@ func Now() time.Time {
 	if !x.cfg.ClockAlt {
 		return T0
 	}
-	c := x.choose(KClock, 2, 1, func() string { return "time.Now@" + caller(3) })
+	site := caller(2)
+	c := x.choose(KClock, 2, 1, func() string { return "time.Now@" + site })
 	if c == 1 {
 		return T0.Add(time.Hour + time.Nanosecond)
 	}
